@@ -87,6 +87,11 @@ package tchannel
 //@   requires FrameFull(f) && msg != nil && f.Header.size >= 16
 // (msg.(*initMessage).*: the engine runs the promoted (*initMessage).read on a
 // stand-alone initMessage at msg's address; see message.read in verif_contracts.go)
+// ("truncated frame": a message is parsed from the bytes the frame DECLARES --
+// header size minus the header -- never from what an earlier use left behind
+// them in the pooled buffer)
+//@   label parsed-from-the-declared-bytes-only
+//@   atcall read len(arg1.remaining) == f.Header.size - 16 && arg1.err == nil
 //@   modifies msg.*, msg.(*initMessage).*
 //@   ensures err == nil && istype(msg, *initReq) ==> msg.(*initReq).Version == be16(f.Payload, 0)
 //@   ensures err == nil && istype(msg, *initRes) ==> msg.(*initRes).Version == be16(f.Payload, 0)
